@@ -26,6 +26,7 @@ import (
 	"io"
 	"os"
 	"path/filepath"
+	"runtime"
 	"strconv"
 	"sync"
 	"testing"
@@ -1049,6 +1050,99 @@ func kitDecryptInner(c *caseCtx, cb *cbMon, rng *mon.RNG, stage string, doc, pt 
 // complete Encrypt (checked by the reference implementation) run, then the
 // rest of the first stream is read. All three must be exact. No goroutines
 // other than kit's own; the order of the reads is fixed.
+// failingReader delivers data and then fails (a source that breaks mid-way).
+type failingReader struct {
+	data []byte
+	pos  int
+}
+
+func (f *failingReader) Read(p []byte) (int, error) {
+	if f.pos >= len(f.data) {
+		return 0, errors.New("harness: source broke mid-way")
+	}
+	n := copy(p, f.data[f.pos:])
+	f.pos += n
+	return n, nil
+}
+
+// provokeFailures drives kit through its FAILURE paths with this case's own
+// documents before the nested round trip starts, so that whatever those paths
+// leave behind in shared state (the buffer pool) is in place: a tampered copy
+// and a copy cut mid-segment decrypted to their errors, a Decrypt stream and an
+// Encrypt stream given up by their consumer after a few bytes (closed if they
+// can be), an Encrypt whose source breaks mid-way. None of these is judged
+// here (refusing tampered documents is C02's subject; unexpected acceptance is
+// observed); what follows must still be exact.
+func provokeFailures(c *caseCtx, cb *cbMon, rng *mon.RNG, ct, pt []byte, opts enc.DecryptOptions, algOpt enc.KeyAlgorithm, k int) {
+	rec.Step("provoke failure paths")
+	hdr := 0
+	for i, nl := 0, 0; i < len(ct); i++ {
+		if ct[i] == '\n' {
+			if nl++; nl == 3 {
+				hdr = i + 1
+				break
+			}
+		}
+	}
+	if hdr == 0 || len(ct)-hdr < 17 {
+		return
+	}
+	drain := func(doc []byte, what string) {
+		dr, err := callDecrypt(bytes.NewReader(doc), opts)
+		if err == nil {
+			_, err = io.Copy(io.Discard, dr)
+		}
+		if err == nil {
+			rec.Observe("a " + what + " copy of the case's document was decrypted without an error while provoking failure paths (C02's subject)")
+			return
+		}
+		rec.Count("overlap.provoked."+what, 1)
+	}
+	// one flipped ciphertext byte in the last segment; the copy cut in the middle of its last segment
+	bad := append([]byte(nil), ct...)
+	lastLen := (len(ct) - hdr) % 65552
+	if lastLen == 0 {
+		lastLen = 65552
+	}
+	bad[len(bad)-lastLen+(lastLen-16)/2] ^= 0x10
+	drain(bad, "tampered")
+	drain(ct[:len(ct)-lastLen/2-1], "cut-mid-segment")
+	// a Decrypt stream given up by its consumer
+	if dr, err := callDecrypt(bytes.NewReader(ct), opts); err == nil {
+		io.ReadFull(dr, make([]byte, min(k, 5)))
+		if cl, ok := dr.(io.Closer); ok {
+			cl.Close()
+			rec.Count("overlap.provoked.decrypt_stream_abandoned_and_closed", 1)
+		}
+	}
+	wrapFn := func(fk []byte, a, n string, nonce []byte) ([]byte, []byte, error) {
+		w, err := cb.v.wrap(fk, a, n)
+		return w, nil, err
+	}
+	eo := enc.EncryptOptions{Algorithm: algOpt, KeyName: c.names[0], WrapKeyFn: wrapFn}
+	// an Encrypt stream given up by its consumer
+	if er, err := callEncrypt(bytes.NewReader(pt), eo); err == nil {
+		io.ReadFull(er, make([]byte, 20))
+		if cl, ok := er.(io.Closer); ok {
+			cl.Close()
+			rec.Count("overlap.provoked.encrypt_stream_abandoned_and_closed", 1)
+		}
+	}
+	// an Encrypt whose source breaks mid-way
+	if er, err := callEncrypt(&failingReader{data: pt[:len(pt)/2]}, eo); err == nil {
+		if _, err := io.Copy(io.Discard, er); err != nil {
+			rec.Count("overlap.provoked.encrypt_source_failed", 1)
+		} else {
+			rec.Observe("an Encrypt whose source reader failed mid-way ended without an error (observed while provoking failure paths)")
+		}
+	}
+	// kit's goroutines finish their clean-up on their own time: give them the processor a few times
+	for i := 0; i < 8; i++ {
+		runtime.Gosched()
+	}
+	rec.Count("overlap.failures_provoked_before_the_nested_round_trip", 1)
+}
+
 func overlapRoundTrip(c *caseCtx, cb *cbMon, rng *mon.RNG, ct, rct, pt []byte, algOpt enc.KeyAlgorithm) bool {
 	v := cb.v
 	defer cb.verifyOwned(c, "overlapped-round-trip")
@@ -1068,6 +1162,7 @@ func overlapRoundTrip(c *caseCtx, cb *cbMon, rng *mon.RNG, ct, rct, pt []byte, a
 		return "overlap/" + what + "/" + lenClass(len(pt)) + "/" + cipherNames[c.s.Cipher]
 	}
 	extra := map[string]any{"outer_stream_read_before_the_inner_operations": k}
+	provokeFailures(c, cb, rng, ct, pt, opts, algOpt, k)
 	rec.Step("overlap round trip")
 	dA, err := callDecrypt(bytes.NewReader(ct), opts)
 	if err != nil {
@@ -1293,13 +1388,13 @@ func TestCheck(t *testing.T) {
 		"Lengths {0,1,2,15,16,17,k*65536-1,k*65536,k*65536+1 (k=1..4), seeded random <= 400 KiB}; ciphers {nil, AES-GCM, ChaCha20-Poly1305}; the five algorithm ids and the aliases AES, RSA, each wrapped for real by kit's crypto package (AES-KW, AES-CBC no-pad 128/192/256, RSA-OAEP-256 2048 bit); "+
 		"source styles {all-at-once, 1-byte, seeded random chunks, zero-length reads interleaved, last data together with EOF, io.Pipe writer with random write sizes}; consumers {io.ReadAll, 1-byte/61-byte buffer, random sizes, 70000-byte buffer}. "+
 		"The first cases form a seeded covering array of strength 2 over these 13 dimensions (every pair of values of every two dimensions), the thorough tier adds the full product length<=65537 x cipher x algorithm x key-name options and the full product of the four reader/consumer styles at seven boundary lengths, the rest are seeded random vectors. "+
-		"Each case is judged by: the structural monitor on the ciphertext bytes, refenc.Decrypt(kit.Encrypt(pt))==pt, kit.Decrypt(kit.Encrypt(pt))==pt with clean EOF, kit.Decrypt(refenc.Encrypt(pt))==pt, the wrap/unwrap argument monitor and the ErrDecryptionKeyMissing rule; in every odd-numbered case the key callbacks are busy: each call runs an independent small enc/v1 Encrypt/Decrypt round trip before answering (a key store that protects its own records with the scheme), which must neither fail nor disturb the outer stream; in every third case the callbacks answer from CALLBACK-OWNED MEMORY (unwrap returns the same slice of a guarded key table for a given key name and wrapped key - later decryptions of the case get that very slice again -, wrap returns a slice of a long-lived buffer) and after every Encrypt/Decrypt that memory, its guard bytes, neighbouring keys and spare capacity must be unchanged; the argument slices kit passes to the callbacks are looked at again afterwards (counted, not judged). distinct = distinct dimension vectors; non-trivial = every case (a real encryption and three real decryptions); case 0 additionally decrypts kit's seven testdata files with refenc. Every case with at least 2 plaintext bytes is followed by an overlapped round trip: kit's ciphertext is opened with Decrypt and read to k bytes (k in {1,10,65535,65546}, or half the plaintext), then a complete Decrypt of the reference ciphertext and a complete Encrypt (checked by refenc) run, then the rest is read; all three must be exact. "+
+		"Each case is judged by: the structural monitor on the ciphertext bytes, refenc.Decrypt(kit.Encrypt(pt))==pt, kit.Decrypt(kit.Encrypt(pt))==pt with clean EOF, kit.Decrypt(refenc.Encrypt(pt))==pt, the wrap/unwrap argument monitor and the ErrDecryptionKeyMissing rule; in every odd-numbered case the key callbacks are busy: each call runs an independent small enc/v1 Encrypt/Decrypt round trip before answering (a key store that protects its own records with the scheme), which must neither fail nor disturb the outer stream; in every third case the callbacks answer from CALLBACK-OWNED MEMORY (unwrap returns the same slice of a guarded key table for a given key name and wrapped key - later decryptions of the case get that very slice again -, wrap returns a slice of a long-lived buffer) and after every Encrypt/Decrypt that memory, its guard bytes, neighbouring keys and spare capacity must be unchanged; the argument slices kit passes to the callbacks are looked at again afterwards (counted, not judged). distinct = distinct dimension vectors; non-trivial = every case (a real encryption and three real decryptions); case 0 additionally decrypts kit's seven testdata files with refenc. Every case with at least 2 plaintext bytes is followed by an overlapped round trip: kit's ciphertext is opened with Decrypt and read to k bytes (k in {1,10,65535,65546}, or half the plaintext), then a complete Decrypt of the reference ciphertext and a complete Encrypt (checked by refenc) run, then the rest is read; all three must be exact. Before that nested round trip kit's FAILURE paths are provoked with the case's own documents (a copy with a flipped ciphertext byte and a copy cut mid-segment decrypted to their errors, a Decrypt stream and an Encrypt stream abandoned and closed by the consumer, an Encrypt whose source breaks mid-way), so that what those paths leave in shared state is present. "+
 		"Long key names (after the huge cases): KeyName or DecryptionKeyName sized so that the three-line header is exactly N bytes for every N in 65534..65556 (every off-by-one around 65536 and 65552), and ordinary 10 KiB / 60 KiB names, x both ciphers x {A256KW, A128CBC-NOPAD, RSA-OAEP-256} (all seven in thorough), some with a long decrypt override; EITHER Encrypt refuses (counted per side of 65536) OR the document passes the structural monitor and is decrypted by refenc and by kit (seeded reader styles) to the plaintext; the published format sets no header limit and refenc imposes none. "+
 		"Huge cases (after the ordinary ones, each run by one child): a generated plaintext of 4 GiB + 64 KiB + 100 bytes = 65538 segments (every segment differs) is streamed through kit.Encrypt and decrypted by refenc's streaming reader (quick: AES-GCM; thorough: both ciphers and also refenc's streaming Encrypt -> kit.Decrypt), "+
 		"compared position by position with the generator, plus total length, segment count and ciphertext length; this is the only place where segment numbers >= 65536 (the upper half of the nonce's 32-bit counter) occur.")
 	rec.Note("require", []string{"callback.inner_round_trips", "struct.ok", "ref_decrypts_kit.ok", "kit_decrypts_ref.ok", "roundtrip.ok", "key_missing.ok", "testdata.files_decrypted_by_refenc",
 		"src.zero_length_reads", "src.eof_with_last_data", "src.pipe_sources", "length.len=0", "length.len=k*64K", "length.len=k*64K+1", "length.len=k*64K-1",
-		"overlap.ok", "callback.owned.cases", "callback.owned.memory_verified_intact", "callback.owned.unwrap_answered_from_the_same_slice", "bigname.roundtrip_ok", "bigname.roundtrip_ok.header-le-65536", "bigname.roundtrip_ok.ordinary-long-name", "bigname.encrypt_accepted.header-le-65536", "huge.kit-to-ref.ok", "huge.segments_beyond_65535_authenticated", "alg.AES", "alg.RSA", "alg.A128CBC-NOPAD", "alg.A192CBC-NOPAD", "alg.A256CBC-NOPAD", "alg.A256KW", "alg.RSA-OAEP-256"})
+		"overlap.ok", "overlap.failures_provoked_before_the_nested_round_trip", "overlap.provoked.tampered", "overlap.provoked.cut-mid-segment", "overlap.provoked.decrypt_stream_abandoned_and_closed", "overlap.provoked.encrypt_stream_abandoned_and_closed", "overlap.provoked.encrypt_source_failed", "callback.owned.cases", "callback.owned.memory_verified_intact", "callback.owned.unwrap_answered_from_the_same_slice", "bigname.roundtrip_ok", "bigname.roundtrip_ok.header-le-65536", "bigname.roundtrip_ok.ordinary-long-name", "bigname.encrypt_accepted.header-le-65536", "huge.kit-to-ref.ok", "huge.segments_beyond_65535_authenticated", "alg.AES", "alg.RSA", "alg.A128CBC-NOPAD", "alg.A192CBC-NOPAD", "alg.A256CBC-NOPAD", "alg.A256KW", "alg.RSA-OAEP-256"})
 	rec.Note("plan", map[string]int{"covering_array_rows": nPairwise, "full_product_rows": nProduct, "total": len(specs)})
 	// the huge cases come after the ordinary ones; each is run by exactly one child
 	for i, h := range hugePlan() {
